@@ -113,6 +113,7 @@ THEOREMS = [
     "OllamaVerif.Tie.C13.accepted_bytes_safe",
     "OllamaVerif.Tie.C13.colon_only_in_hosts",
     "OllamaVerif.Tie.C13.no_odd_strings",
+    "OllamaVerif.Tie.C13.n1_variant_is_repaired",
 ]
 
 OV_MODEL = {"types/model/zz_verif_c13_test.go": "types_model/zz_verif_c13_test.go"}
@@ -178,6 +179,8 @@ def regenerate(ctx):
         body.append(f"def odd{pk} : List (Nat × List (List Nat)) := [" + ", ".join(
             "({}, [{}])".format(k, ", ".join(lst(list(bytes.fromhex(h))) for h in rows.get((pk, k, 'odd'), [])))
             for k in range(kinds)) + "]")
+    body.append("/-- finding N1 on the real code: `names.Parse(w).IsValid()` for w = h//m, h//m:t, h:80//m -/")
+    body.append("def n1Probe : List Bool := [" + ", ".join("true" if x else "false" for x in rows[("N", 0, "n1probe")]) + "]")
     body.append("end OllamaVerif.Generated.C13")
     ctx._c13_rows = rows
     core.write_generated("OllamaVerif/Generated/C13_NameTable.lean", "\n".join(body) + "\n")
@@ -239,7 +242,7 @@ def tie_witnesses(ctx):
 REQUIRED_COUNTERS = [
     # types/model: accept / reject, Filepath defined, relative paths, part rule, the third printer's two outcomes
     "name_accepted", "name_rejected", "relpath_accepted", "relpath_rejected", "part_accepted", "bare_valid", "model_valid",
-    "display_roundtrip_exact", "display_roundtrip_case_only", "legacy_case_twin_distinct_path",
+    "display_roundtrip_exact", "display_roundtrip_case_only",
     # names: both directions of disagreement between the packages' acceptance are seen (valid-but-unqualified forms)
     "accept_model_only", "accept_names_only", "merged_fq", "merged_rejected", "maxnamelength_probe",
     # legacy server: ParseModelPath / GetManifestPath / GetBlobsPath (three outcomes) / odd roots / enumeration / copy
@@ -254,6 +257,8 @@ REQUIRED_COUNTERS = [
     "hist_op_R", "hist_op_L", "hist_op_U", "hist_op_W", "hist_op_X", "hist_twins_seen",
     # registry client: every error class and the digest-only form
     "ext_accepted", "ext_digest_only", "ext_rejected_scheme", "ext_rejected_digest", "ext_rejected_name",
+    # the regression corpus of every driver that has one was read (corpus/C13/{model,names,blob}.txt)
+    "corpus_model", "corpus_names", "corpus_blob",
     # directed families
     "fold_family", "fold_direct", "utf8_names", "utf8_sample_2byte", "utf8_sample_3byte", "utf8_sample_4byte",
 ]
@@ -266,6 +271,18 @@ def coverage_required(ctx):
     if missing:
         ctx.violation("correspondence-coverage", "", "branches of the model never exercised on the real code in this run: "
                       + ", ".join(missing), no_input=True)
+
+
+def variant_expected(ctx):
+    """N1 is `fixed` in KNOWN_FINDINGS: the tree must show the repaired behaviour.  The names driver probes the variant (and
+    hands it to the oracle so that L1 stays exact on a pinned tree); a probe that says `pinned` while the finding is listed
+    as fixed is a regression and is reported with the finding's witness as the failing input."""
+    fixed = any(f.get("id") == "N1" and f.get("status") == "fixed" for f in ctx.findings)
+    ctx.coverage["variant_n1"] = "repaired" if ctx.stats.get("variant_n1_fixed_1") else "pinned"
+    if fixed and (ctx.stats.get("variant_n1_fixed_0") or not ctx.stats.get("variant_n1_fixed_1")):
+        ctx.violation("variant-regression", "nname 0 682f2f6d",
+                      "finding N1 is listed as fixed, but names.Parse(\"h//m\").IsValid() is true on this tree: a host without "
+                      "a namespace is valid again (String() prints h/m, which parses back with the host as namespace)")
 
 
 def run(ctx):
@@ -282,10 +299,16 @@ def run(ctx):
         "client": ((3000, 3), (60000, 4)),
     }
     only = os.environ.get("VERIF_C13_ONLY")
+    replayed = False
+    if only:
+        # a debugging switch: the run is NOT a verdict on the property (drivers and the coverage gate are skipped)
+        ctx.coverage["VERIF_C13_ONLY"] = only
+        ctx.violation("machinery-error", "", f"VERIF_C13_ONLY={only} is set: only part of the check ran; unset it", no_input=True)
     for label, pkg, overlay in DRIVERS:
         if only and label not in only.split(","):
             continue
         if not os.path.exists(os.path.join(core.OVERLAY, list(overlay.values())[0])):
+            ctx.violation("driver-failed", "", f"[{label}] overlay file missing: {list(overlay.values())[0]}", no_input=True)
             continue
         n, exh = sizes[label][1 if ctx.thorough else 0]
         env = {"VERIF_N": n, "VERIF_EXH": exh, "VERIF_HIST": 4000 if ctx.thorough else 300, "VERIF_EXH_PATH": 3 if not ctx.thorough else 4,
@@ -299,13 +322,25 @@ def run(ctx):
                 opname = "vpart" + (toks[1] if len(toks) > 1 else "")
             if opname not in OPS_OF[label]:
                 continue
+            replayed = True
             env["VERIF_REPLAY"] = ctx.replay_line_file()
         rc, out, outdir = ctx.go_test(pkg, ov(overlay), "^TestVerifC13$", env=env)
         if rc != 0:
             ctx.violation("driver-failed", "", f"[{label}] " + out[-1500:], no_input=True)
-        ctx.read_stats(outdir)
+        st = ctx.read_stats(outdir)
+        if st.get("corpus"):
+            ctx.stats["corpus_" + label] = ctx.stats.get("corpus_" + label, 0) + st["corpus"]
         ctx.l1(outdir, label=label)
         ctx.classify(ctx.l2(outdir))
+        if label == "names" and not ctx.replay:
+            variant_expected(ctx)
+    if ctx.replay and not replayed:
+        # a replay of an input-less violation (theorem / table / coverage) has re-run the Lean side above; a case line that
+        # names an operation no driver owns re-ran nothing and must not read as "fixed"
+        raw = open(ctx.replay).read()
+        inputless = '"no_failing_input_found": true' in raw
+        if not inputless:
+            ctx.violation("machinery-error", "", "the replay case matches no driver's operations: nothing was re-run", no_input=True)
     if not ctx.replay and not only:
         coverage_required(ctx)
     if ctx.thorough:
@@ -337,6 +372,6 @@ OPS_OF = {
     "model": {"mname", "mpath", "vpartM"},
     "names": {"nname", "vpartN"},
     "blob": {"digest", "getfile", "n2p", "mfpath", "snd", "resolve", "fold", "hist", "p2n"},
-    "server": {"mp", "blobs", "clean", "join", "canon", "enum"},
+    "server": {"mp", "blobs", "clean", "join", "canon", "enum", "copy"},
     "client": {"ext", "split"},
 }
